@@ -556,11 +556,14 @@ def bounded_pairs(ctx, b):
     rng = random.Random(ctx.seed + 1)
     mags = [0.0, 1.0, 10.0, 33.33, 100.0]
     sizes = [Size(m, u) for m in mags[:3] for u in UnitEnum]
+    # values that differ by less than the printing precision are still different values
+    sizes += [Size(m, u) for m in (0.004, 1.004, 100 / 3) for u in (UnitEnum.PERCENT, UnitEnum.PIXEL)] + [Size(33.33, UnitEnum.PERCENT)]
     vals = list(sizes)
-    pts = [Point(a, bb) for a in sizes[:4] for bb in sizes[:4]]
+    near = [Size(1.0, UnitEnum.PERCENT), Size(1.004, UnitEnum.PERCENT)]
+    pts = [Point(a, bb) for a in sizes[:4] for bb in sizes[:4]] + [Point(a, bb) for a in near for bb in near]
     als = [Alignment(h, v) for h in list(HorizontalAlignmentEnum) + [None] for v in list(VerticalAlignmentEnum) + [None]]
     pads = [Padding(a, a, bb, bb) for a in sizes[:3] for bb in sizes[:3]]
-    strs = [Stretch(a, bb) for a in sizes[:4] for bb in sizes[:4]]
+    strs = [Stretch(a, bb) for a in sizes[:4] for bb in sizes[:4]] + [Stretch(a, bb) for a in near for bb in near]
     lays = [Layout(origin=o, extent=e, padding=p, alignment=al)
             for o in [None] + pts[:3] for e in [None] + strs[:3] for p in [None] + pads[:2] for al in [None] + als[:4]]
     import copy
